@@ -96,9 +96,18 @@ def _collapse_preconditions(
             ).format(func.__qualname__)
         )
 
+    # The function might have been collapsed with (some of) these bases already: the class is created anew by
+    # a class decorator (*e.g.*, ``dataclasses.dataclass(slots=True)``) or the function is shared among sibling classes.
+    # The groups which the function already includes must not be merged once more.
+    included = {id(contract) for group in preconditions for contract in group}
+
     # The groups of the bases are copied so that a precondition added to this function later on
     # (*e.g.*, ``Sub.func = icontract.require(...)(Sub.func)``) does not end up in the contracts of a base class.
-    return [list(group) for group in base_preconditions] + preconditions
+    return [
+        list(group)
+        for group in base_preconditions
+        if not all(id(contract) in included for contract in group)
+    ] + preconditions
 
 
 def _collapse_snapshots(
@@ -112,7 +121,15 @@ def _collapse_snapshots(
     :return: collapsed sequence of snapshots
     """
     seen_names = set()  # type: Set[str]
-    collapsed = base_snapshots + snapshots
+
+    # Ignore the snapshots of the bases which the function already includes (see _collapse_preconditions) and
+    # the very same snapshot reached over several bases.
+    collapsed = []  # type: List[Snapshot]
+    for snap in base_snapshots:
+        if not any(snap is another for another in collapsed + snapshots):
+            collapsed.append(snap)
+
+    collapsed = collapsed + snapshots
 
     for snap in collapsed:
         if snap.name in seen_names:
@@ -139,7 +156,12 @@ def _collapse_postconditions(
     :param postconditions: postconditions of the function (before the collapse)
     :return: collapsed sequence of postconditions
     """
-    return base_postconditions + postconditions
+    # Ignore the postconditions of the bases which the function already includes (see _collapse_preconditions).
+    return [
+        contract
+        for contract in base_postconditions
+        if not any(contract is another for another in postconditions)
+    ] + postconditions
 
 
 def _decorate_namespace_function(
